@@ -7,13 +7,14 @@ set -u
 cd "$(dirname "$0")/.."
 export GOFLAGS=-mod=mod GOPROXY=off
 tier="${1:-quick}"
+REPO="${VERIF_REPO:-/repo}"; export VERIF_EVIDENCE_DIR="${VERIF_EVIDENCE_DIR:-evidence}" VERIF_REPLAY_DIR="${VERIF_REPLAY_DIR:-replay}"
 deep=""; [ "$tier" = thorough ] && deep=1
 tmp="$(mktemp -d)"; trap 'rm -rf "$tmp"' EXIT
 cat > "$tmp/ov.json" <<EOT
-{"Replace": {"/repo/internal/relationtuple/zz_verif_c16_test.go": "$PWD/extra/c16_standin_test.go"}}
+{"Replace": {"$REPO/internal/relationtuple/zz_verif_c16_test.go": "$PWD/extra/c16_standin_test.go"}}
 EOT
 t0=$(date +%s.%N)
-out=$(cd /repo && VERIF_C16_DEEP=$deep go test -tags sqlite -v -overlay "$tmp/ov.json" -vet=off -count=1 -timeout 900s -run '^TestVerifC16BoundedStandIn$' ./internal/relationtuple/ 2>&1)
+out=$(cd "$REPO" && VERIF_C16_DEEP=$deep go test -tags sqlite -v -overlay "$tmp/ov.json" -vet=off -count=1 -timeout 900s -run '^TestVerifC16BoundedStandIn$' ./internal/relationtuple/ 2>&1)
 res=$(echo "$out" | grep '^C16-RESULT ' | sed 's/^C16-RESULT //')
 if [ -z "$res" ]; then echo "TOOL-ERROR C16 stand-in did not run:"; echo "$out" | tail -8; exit 2; fi
 t1=$(date +%s.%N)
@@ -27,16 +28,17 @@ for l in open('KNOWN_FINDINGS'):
         m=re.search(r'obligation=(\S+)',l)
         if m: known.append((m.group(1),l[len('finding:'):].strip()))
 viol=0; kf=[]
-os.makedirs('replay/C16',exist_ok=True)
+RP=os.environ['VERIF_REPLAY_DIR']; EV=os.environ['VERIF_EVIDENCE_DIR']
+os.makedirs(RP+'/C16',exist_ok=True)
 for f in (res['failures'] or []):
     ob='C16/bounded-standin.'+f['Class']
     hit=[k for k in known if k[0]==ob]
     if hit:
         print('KNOWN-FINDING: '+hit[0][1]); kf.append(ob); continue
-    path='replay/C16/'+re.sub(r'[^A-Za-z0-9_.-]','_',ob)+'.txt'
+    path=RP+'/C16/'+re.sub(r'[^A-Za-z0-9_.-]','_',ob)+'.txt'
     open(path,'w').write('property: C16\nobligation: %s (bounded stand-in, not a proof obligation)\nfailing input (batch shape): %s\n%s\nreplay: /verif/extra/C16.sh quick 0\n'%(ob,f['Input'],f['Detail']))
     print('VIOLATION property=C16 replay=%s obligation=%s input=%s'%(path,ob,f['Input'].replace(' ','_'))); viol+=1
-ev_path='evidence/C16.json'
+ev_path=EV+'/C16.json'
 ev={}
 if os.path.exists(ev_path):
     try: ev=json.load(open(ev_path))
